@@ -126,6 +126,11 @@ func LinkChildrenToParents(root Role) {
 func MakeDisabledRoleCallback(r Role) func(stage template.Stage, err error) error {
 	return func(stage template.Stage, err error) error {
 		if stage == template.STAGE0 { // only `enabled` has been processed so far
+			if err != nil {
+				// a template error in `enabled` leaves the raw expression in place: that is
+				// an error of the load, not a disabled role
+				return err
+			}
 			if !r.IsEnabled() {
 				rde := &template.RoleDisabledError{RolePath: r.GetPath()}
 				return rde
